@@ -30,9 +30,42 @@ Proof.
     apply andb_true_intro. split; [apply dys_eqb_eq; reflexivity | apply IH; reflexivity].
 Qed.
 
+Fixpoint sx_eqb_sound (a : sx) : forall b, sx_eqb a b = true -> a = b.
+Proof.
+  destruct a as [x|x|x|l]; intros [y|y|y|l'] H; cbn in H; try discriminate.
+  - apply Z.eqb_eq in H. congruence.
+  - apply String.eqb_eq in H. congruence.
+  - apply String.eqb_eq in H. congruence.
+  - f_equal. revert l' H. induction l as [|v l IH]; intros [|w l'] H; try discriminate; [reflexivity|].
+    apply andb_prop in H as [H1 H2]. f_equal; [apply sx_eqb_sound; exact H1 | apply IH; exact H2].
+Qed.
+
+Fixpoint sx_eqb_refl (a : sx) : sx_eqb a a = true.
+Proof.
+  destruct a as [x|x|x|l]; cbn.
+  - apply Z.eqb_refl.
+  - apply String.eqb_refl.
+  - apply String.eqb_refl.
+  - induction l as [|v l IH]; [reflexivity|]. rewrite sx_eqb_refl. exact IH.
+Qed.
+
+Lemma sxl_eqb_eq (a b : list sx) : sxl_eqb a b = true <-> a = b.
+Proof.
+  revert b. induction a as [|x a IH]; intros [|y b]; cbn; split; intros H; try discriminate; try reflexivity.
+  - apply andb_prop in H as [H1 H2]. apply sx_eqb_sound in H1. apply IH in H2. congruence.
+  - inversion H; subst. rewrite sx_eqb_refl. apply IH. reflexivity.
+Qed.
+
+Lemma shape_eqb_eq (a b : option (nat * nat)) : shape_eqb a b = true <-> a = b.
+Proof.
+  destruct a as [[r c]|], b as [[r' c']|]; cbn; split; intros H; try discriminate; try reflexivity.
+  - apply andb_prop in H as [H1 H2]. apply Nat.eqb_eq in H1, H2. congruence.
+  - inversion H; subst. rewrite !Nat.eqb_refl. reflexivity.
+Qed.
+
 Fixpoint dv_eqb_sound (a : dv) : forall b, dv_eqb a b = true -> a = b.
 Proof.
-  destruct a as [x|r c d|l|l|l|l]; intros [x'|r' c' d'|l'|l'|l'|l'] H; cbn in H; try discriminate.
+  destruct a as [x|r c d|l|l|l|l|k sh l|x]; intros [x'|r' c' d'|l'|l'|l'|l'|k' sh' l'|x'] H; cbn in H; try discriminate.
   - apply dy_eqb_eq in H. congruence.
   - apply andb_prop in H as [H H3]. apply andb_prop in H as [H1 H2].
     apply Nat.eqb_eq in H1, H2. apply dys_eqb_eq in H3. congruence.
@@ -43,17 +76,22 @@ Proof.
   - f_equal. revert l' H. induction l as [|[n v] l IH]; intros [|[n' w] l'] H; try discriminate; [reflexivity|].
     apply andb_prop in H as [H1 H3]. apply andb_prop in H1 as [H1 H2]. apply String.eqb_eq in H1. subst.
     f_equal; [f_equal; apply dv_eqb_sound; exact H2 | apply IH; exact H3].
+  - apply andb_prop in H as [H H3]. apply andb_prop in H as [H1 H2].
+    apply String.eqb_eq in H1. apply shape_eqb_eq in H2. apply sxl_eqb_eq in H3. congruence.
+  - apply sx_eqb_sound in H. congruence.
 Qed.
 
 Fixpoint dv_eqb_refl (a : dv) : dv_eqb a a = true.
 Proof.
-  destruct a as [x|r c d|l|l|l|l]; cbn.
+  destruct a as [x|r c d|l|l|l|l|k sh l|x]; cbn.
   - apply dy_eqb_eq; reflexivity.
   - rewrite !Nat.eqb_refl. cbn. apply dys_eqb_eq; reflexivity.
   - apply dys_eqb_eq; reflexivity.
   - apply cols_eqb_eq; reflexivity.
   - induction l as [|v l IH]; [reflexivity|]. rewrite dv_eqb_refl. exact IH.
   - induction l as [|[n v] l IH]; [reflexivity|]. rewrite String.eqb_refl, dv_eqb_refl. exact IH.
+  - rewrite String.eqb_refl. cbn. apply andb_true_intro. split; [apply shape_eqb_eq | apply sxl_eqb_eq]; reflexivity.
+  - apply sx_eqb_refl.
 Qed.
 
 Lemma dv_eqb_eq (a b : dv) : dv_eqb a b = true <-> a = b.
